@@ -116,20 +116,26 @@ def roundtrip_requests(results, meta):
     return reqs, origin
 
 
-def end_to_end(ctx, stg, n):
-    """`stg id <loc>` on a real stack with real commit ids: an existing name wins; results
-    name patches of the stack."""
+def end_to_end(ctx, stg, n, driver=None, upath=None):
+    """`stg id <loc>` (PatchLocator::resolve_revision, a different code path from resolve_name)
+    on a real stack with applied, unapplied AND hidden patches and real commit ids: an existing
+    name wins, and whenever the model resolves the locator to a patch, `stg id` prints that
+    patch's commit."""
     rng = ctx.rng
     problems, runs = [], 0
     with repo.Scratch("c15") as r:
         r.init_repo()
         r.stg(stg, ["init"])
-        names = ["p0", "5", "abc123", "-1", "p+1", "0"]
+        names = ["p0", "5", "abc123", "-1", "p+1", "0", "h1", "h2"]
         for nm in names:
             p = r.stg(stg, ["new", "-m", "m " + nm, nm if not nm.startswith("-") else "\\" + nm])
             if p.returncode != 0:
                 problems.append({"argv": ["new", nm], "exit": p.returncode, "stderr": p.stderr[-300:]})
-        r.stg(stg, ["pop", "-n", "2"])
+        r.stg(stg, ["pop", "-n", "4"])
+        r.stg(stg, ["hide", "h1", "h2"])
+        applied = r.stg(stg, ["series", "--noprefix", "-A"]).stdout.split()
+        unapplied = r.stg(stg, ["series", "--noprefix", "-U"]).stdout.split()
+        hidden = r.stg(stg, ["series", "--noprefix", "-H"]).stdout.split()
         ids = {}
         for nm in names:
             ids[nm] = r.rev("refs/patches/main/" + nm)
@@ -140,16 +146,34 @@ def end_to_end(ctx, stg, n):
             if p.returncode != 0 or p.stdout.strip() != ids[nm]:
                 problems.append({"argv": ["id", "--", arg], "exit": p.returncode, "stdout": p.stdout.strip(),
                                  "expected": ids[nm], "why": "existing patch name did not win"})
-        for _ in range(n):
-            loc = gen_loc.locator(rng, names)
-            if not loc or loc.startswith("-") and not loc.startswith("\\"):
-                loc = "\\" + loc if loc.startswith("-") else "p0"
-            if "\x00" in loc:
+        fixed = ["^", "^0", "^1", "^2", "^~", "^~1", "^+1", "^-1", "^-2", "@", "@~", "@~2", "@+1", "@+3", "{base}+1",
+                 "{base}+4", "0", "3", "-2", "p0+1", "p0+5", "p+1~", "h1~", "h1+1", "h2~3", "5~", "abc123+2"]
+        locs = fixed + [gen_loc.locator(rng, names) for _ in range(n)]
+        reqs = []
+        keep = []
+        for loc in locs:
+            if not loc or "\x00" in loc:
                 continue
+            if loc.startswith("-") and not loc.startswith("\\"):
+                loc = "\\" + loc
+            keep.append(loc)
+            mloc = loc[1:] if loc.startswith("\\-") else loc
+            reqs.append(["resolve", hxlist(applied), hxlist(unapplied), hxlist(hidden),
+                         ",".join(ids[x] for x in applied + unapplied + hidden), hx(mloc)])
+        model = funcorr.run_model(driver, upath, reqs) if driver else [None] * len(reqs)
+        for loc, m in zip(keep, model):
             p = r.stg(stg, ["id", "--", loc])
             runs += 1
             if p.returncode not in (0, 1, 2) or "panicked" in p.stderr:
                 problems.append({"argv": ["id", "--", loc], "exit": p.returncode, "stderr": p.stderr[-300:]})
+            elif m and m.startswith("ok "):
+                want = ids.get(funcorr.unhx(m.split(" ")[1]))
+                if p.returncode != 0 or p.stdout.strip() != want:
+                    got_name = [k for k, v in ids.items() if v == p.stdout.strip()]
+                    problems.append({"argv": ["id", "--", loc], "exit": p.returncode, "stdout": p.stdout.strip(),
+                                     "why": "stg id resolves %r to %r, the locator rules (and resolve_name) give %r"
+                                            % (loc, got_name or p.stderr.strip()[-80:], funcorr.unhx(m.split(" ")[1])),
+                                     "stack": {"applied": applied, "unapplied": unapplied, "hidden": hidden}})
     return runs, problems
 
 
@@ -184,7 +208,7 @@ def run(ctx):
         if not out.startswith("ok ") or out[3:].rsplit(" ", 1)[0] != ast:
             oracle_failures.append({"request": [m[0], disp], "decoded": list(m), "impl": out,
                                     "why": "display(parse(s)) does not parse back to the same locator", "ast": ast})
-    e2e_runs, e2e_problems = end_to_end(ctx, stg, n_e2e)
+    e2e_runs, e2e_problems = end_to_end(ctx, stg, n_e2e, driver, upath)
     corpus = run_corpus(stg, driver, upath)
 
     ctx.obligations += 2
